@@ -77,7 +77,9 @@ NV_LS_DECREASE(__CPROVER_return_value)
  *   returns true  <=> converged or the step failed (iter_ok false or state invalid);
  *   C01: status becomes `converged` only if the caller's convergence test held;
  *   C02: "unless the status is failed the returned point and value are finite": a state that is not valid is never
- *        given the status `converged`. */
+ *        given the status `converged`;
+ *   C02: "the value is not larger than the starting value": a FAILED iteration (iter_ok false: the line search gave up and left the
+ *        state at its last trial point) is never `converged`, it ends in `failed` (repaired defect, specs/C02/FINDING_failed_lsearch_converged.md). */
 #ifndef NV_DONE_EXTRA_REQUIRES
 #define NV_DONE_EXTRA_REQUIRES 1
 #endif
@@ -91,6 +93,9 @@ __CPROVER_ensures(!__CPROVER_return_value ==> state->m_status == __CPROVER_old(s
 __CPROVER_ensures(__CPROVER_return_value ==> (state->m_status == NVE_solver_status_converged || state->m_status == NVE_solver_status_failed)) \
 __CPROVER_ensures((__CPROVER_return_value && state->m_status == NVE_solver_status_converged) ==> converged) \
 __CPROVER_ensures((__CPROVER_return_value && state->m_status == NVE_solver_status_converged) ==> state->valid) \
+__CPROVER_ensures((__CPROVER_return_value && state->m_status == NVE_solver_status_converged) ==> iter_ok) \
+__CPROVER_ensures(!iter_ok ==> (__CPROVER_return_value && state->m_status == NVE_solver_status_failed)) \
+__CPROVER_ensures((__CPROVER_return_value && converged && iter_ok && state->valid) ==> state->m_status == NVE_solver_status_converged) \
 __CPROVER_ensures(state->m_fcalls >= 0 && (uint64_t)state->m_fcalls <= nv_ver_counter && state->m_gcalls >= 0 && (uint64_t)state->m_gcalls <= NV_GCOUNT)
 
 /* ---- do_minimize of gd / cgd / lbfgs / quasi */
@@ -113,9 +118,9 @@ __CPROVER_ensures(nv_ver_counter < 2000000000 && 2 * nv_ver_counter < (uint64_t)
 NV_ENSURES_C02_F0
 #if defined(NV_C02)
 /* C02: "the value is not larger than the starting value" for an Armijo-exit line search (every pairing but CG_DESCENT) and a finite start */
-/* (two clauses: the second one is REFUTED on the unchanged library -- a FAILED line search leaves the state at its last trial point and
- *  solver_t::done(state, iter_ok = false, converged = true) still reports `converged`: specs/C02/FINDING_failed_lsearch_converged.md,
- *  replay/C02_failed_lsearch_converged.cpp; recorded in known_findings.txt) */
+/* (two clauses: the second one was REFUTED before the library repair `(converged && step_ok)` in solver_t::done -- a FAILED line search leaves
+ *  the state at its last trial point and solver_t::done(state, iter_ok = false, converged = true) reported `converged`:
+ *  specs/C02/FINDING_failed_lsearch_converged.md, replay/C02_failed_lsearch_converged.cpp; `fixed:` line in known_findings.txt) */
 #define NV_ENSURES_C02_F0 \
 __CPROVER_ensures((nv_ls_armijo_exit && NV_RET.m_status == NVE_solver_status_max_iters && __CPROVER_isfinited(nv_ls_f0)) ==> NV_RET.m_fx <= nv_ls_f0) \
 __CPROVER_ensures((nv_ls_armijo_exit && NV_RET.m_status == NVE_solver_status_converged && __CPROVER_isfinited(nv_ls_f0)) ==> NV_RET.m_fx <= nv_ls_f0)
